@@ -34,8 +34,13 @@ VERIFY_METADATA_PINS = [
 ]
 
 
-def _fn_body(src, name):
-    m = re.search(r"\bfn\s+%s\b" % re.escape(name), src)
+def _fn_body(src, name, after=None):
+    start = 0
+    if after is not None:
+        start = src.find(after)
+        if start < 0:
+            return None
+    m = re.compile(r"\bfn\s+%s\b" % re.escape(name)).search(src, start)
     if not m:
         return None
     i = src.index("{", src.index(")", m.end()))
@@ -50,6 +55,27 @@ def _fn_body(src, name):
     return None
 
 
+def _norm(body):
+    norm = re.sub(r"//[^\n]*", "", body)
+    norm = re.sub(r"#\[cfg\(fuzzing\)\]\s*if[^{]*\{[^}]*\}", "", norm)
+    norm = re.sub(r"#\[[^\]]*\]", "", norm)
+    return re.sub(r"\s+", "", norm)
+
+
+# BOLT 11: the key the signature is checked against must be the key the accessors report: the first
+# `n` field (find_extract!) if any, else the recovered key. (file, impl anchor, fn, required fragments)
+BOLT11_PINS = [
+    ("impl SignedRawBolt11Invoice {", "check_signature",
+     ["matchself.raw_invoice.payee_pub_key(){Some(pk)=>{", "secp_context.verify_ecdsa(&hash,&self.signature.to_standard(),pk);verification_result.is_ok()",
+      "None=>self.recover_payee_pub_key().is_ok(),"]),
+    ("impl RawBolt11Invoice {", "payee_pub_key",
+     ["find_extract!(self.known_tagged_fields(),TaggedField::PayeePubKey(refx),x)"]),
+    ("impl Bolt11Invoice {", "payee_pub_key", ["self.signed_invoice.payee_pub_key().map(|x|&x.0)"]),
+    ("impl Bolt11Invoice {", "get_payee_pub_key", ["matchself.payee_pub_key(){Some(pk)=>*pk,None=>self.recover_payee_pub_key()"]),
+    ("impl Bolt11Invoice {", "from_signed", ["invoice.check_signature()?;"]),
+]
+
+
 def generate(ctx):
     """Structural pin (no Gallina is generated): refuse when verify_metadata no longer compares what the
     model says it compares. The judge over the alteration sweeps then supplies the failing input."""
@@ -59,16 +85,29 @@ def generate(ctx):
     body = _fn_body(src, "verify_metadata")
     if body is None:
         raise RuntimeError("offers/signer.rs: fn verify_metadata not found")
-    # drop the cfg(fuzzing) escape hatches, comments, attributes and whitespace
-    norm = re.sub(r"//[^\n]*", "", body)
-    norm = re.sub(r"#\[cfg\(fuzzing\)\]\s*if[^{]*\{[^}]*\}", "", norm)
-    norm = re.sub(r"#\[[^\]]*\]", "", norm)
-    norm = re.sub(r"\s+", "", norm)
+    norm = _norm(body)
     missing = [p for p in VERIFY_METADATA_PINS if p not in norm]
     meta = [{"item": "offers/signer.rs::verify_metadata", "sha256": hashlib.sha256(body.encode()).hexdigest()[:16], "pins": len(VERIFY_METADATA_PINS)}]
-    ctx.gen_meta = meta
+    problems = []
     if missing:
-        raise RuntimeError("verify_metadata no longer contains the pinned comparison(s): " + "; ".join(missing) + " -- normalised body: " + norm[:900])
+        problems.append("verify_metadata no longer contains the pinned comparison(s): " + "; ".join(missing) + " -- normalised body: " + norm[:900])
+    lsrc = open(os.path.join(core.REPO, "lightning-invoice", "src", "lib.rs")).read()
+    mac = re.search(r"macro_rules!\s*find_extract\s*\{.*?\n\}", lsrc, re.S)
+    if not mac or "find_all_extract!($iter,$enm,$enm_var).next()" not in _norm(mac.group(0)):
+        problems.append("find_extract! is no longer `find_all_extract!(..).next()` (first matching field)")
+    for anchor, fn, frags in BOLT11_PINS:
+        b = _fn_body(lsrc, fn, after=anchor)
+        if b is None:
+            problems.append("lightning-invoice/src/lib.rs: fn %s after `%s` not found" % (fn, anchor))
+            continue
+        nb = _norm(b)
+        miss = [f for f in frags if f not in nb]
+        meta.append({"item": "lightning-invoice/src/lib.rs::%s::%s" % (anchor.split()[1], fn), "sha256": hashlib.sha256(b.encode()).hexdigest()[:16], "pins": len(frags)})
+        if miss:
+            problems.append("%s::%s no longer contains: %s -- normalised body: %s" % (anchor.split()[1], fn, "; ".join(miss), nb[:700]))
+    ctx.gen_meta = meta
+    if problems:
+        raise RuntimeError(" || ".join(problems))
     return meta
 TAGS = ["lightninginvoice_requestsignature", "lightninginvoicesignature"]
 
@@ -101,6 +140,14 @@ Definition sh_b11 (data : list Z) : list Z :=
       | ROk (ts, fs), ROk _ => 1 :: ts :: optint (find_tag 6 fs) :: optint (find_tag 24 fs) :: map fst fs
       | _, _ => [0]
       end
+  end.
+Definition sh_payee (data : list Z) : string :=
+  match split_signature data with
+  | RErr _ => "none"%string
+  | ROk (d, _) => match parse_data d with
+                  | ROk (_, fs) => match first_payee_field fs with Some v => hex_of_bytes (from_u5_lax v) | None => "none"%string end
+                  | RErr _ => "none"%string
+                  end
   end.
 Definition sh_hash (hrp data : list Z) : string :=
   match bolt11_signable_hash hrp data with Some h => hex_of_bytes h | None => "none"%string end.
@@ -232,6 +279,10 @@ def judge_gen(ctx, recs):
                     outcomes[o] += r[m][o]
         if r["k"] == "b12sig":
             flips += r["flips"]
+        if r["k"] == "b11struct":
+            st = ctx.coverage.setdefault("bolt11_structural_mutations", {"total": 0, "err": 0, "same_content": 0, "other_key": 0})
+            for o in st:
+                st[o] += r["structural"][o]
     ctx.coverage["gen_record_histogram"] = hist
     ctx.coverage["bolt11_mutations"] = mut
     ctx.coverage["bolt11_mutation_outcomes"] = outcomes
@@ -410,28 +461,47 @@ def corr_bolt11(ctx, recs, rng):
     invs = [r for r in recs if r["k"] == "b11" and r.get("built")]
     invs = sorted(invs, key=lambda r: r["len"])
     invs = invs[:: max(1, len(invs) // (24 if q else 120))][: (24 if q else 120)]
+    # parsed structural variants (duplicated / inserted / reordered fields, several n fields)
+    samples = []
+    for r in recs:
+        if r["k"] == "b11struct":
+            samples += r["parsed_samples"]
+    samples = list(dict.fromkeys(samples))
+    samples = samples[:: max(1, len(samples) // (24 if q else 150))][: (24 if q else 150)]
+    ev = Eval(ctx)
+    for s_ in samples:
+        ev.add("b11 " + hx(s_))
+    for s_, o in zip(samples, ev.run()):
+        if o.startswith("Ok "):
+            invs.append({"s": s_, "desc": o[3:], "len": len(s_), "structural": True})
     exprs = []
     for r in invs:
         s = r["s"]
         sep = s.rfind("1")
         data = fes_of(s[sep + 1:-6])
-        exprs.append("(sh_b11 %s, sh_hash %s %s)" % (zl(data), codes(s[:sep]), zl(data)))
+        exprs.append("(sh_b11 %s, (sh_payee %s, sh_hash %s %s))" % (zl(data), zl(data), codes(s[:sep]), zl(data)))
     vals = ctx.coq_eval("c18_b11", IMPORTS, exprs, prelude=PRELUDE, shards=min(16, max(1, len(exprs))))
     ntags = 0
+    nstruct = 0
     for r, v in zip(invs, vals):
         d = dict(kv.split("=", 1) for kv in r["desc"].split(" "))
         tags = [int(t.lstrip("u")) for t in d["tags"].split(",") if t != ""]
         ntags += len(tags)
         want = [1, int(d["ts"])]
-        li = v.rfind(",")
-        m = ints(v[:li])
-        mh = strval(v[li:])
+        strs = re.findall(r'"((?:[^"]|"")*)"', v)
+        m = ints(v[:v.find('"')])
+        mp, mh = strs[0], strs[1]
+        want_payee = d["payee"] if d["explicit"] == "true" else "none"
+        if mp != want_payee:
+            dis.append({"topic": "BOLT 11 authoritative payee field (first 53-symbol n field)", "input": r["s"], "impl": r["desc"], "model": mp})
+            continue
+        nstruct += 1 if r.get("structural") else 0
         exp_present = 6 in tags
         cltv_present = 24 in tags
         want += [int(d["expiry"]) if exp_present else -1, int(d["cltv"]) if cltv_present else -1] + tags
         if m != want or mh != d["hash"]:
             dis.append({"topic": "BOLT 11 data part: timestamp, framing, integer fields, signed hash", "input": r["s"], "impl": r["desc"], "model": {"fields": m[:40], "hash": mh}})
-    ctx.coverage["corr_bolt11_invoices"] = {"invoices": len(invs), "tagged_fields": ntags}
+    ctx.coverage["corr_bolt11_invoices"] = {"invoices": len(invs), "tagged_fields": ntags, "structural_variants": nstruct}
     # hrp grammar and amounts
     hrps = ["lnbc", "lntb", "lnbcrt", "lnsb", "lntbs", "ln", "l", "", "lnb", "lnxx", "lnbc1", "lnbc1m", "lnbc1u", "lnbc1n", "lnbc1p", "lnbc10p", "lnbc11p",
             "lnbc2500u", "lnbc0m", "lnbc00001u", "lnbc1x", "lnbc1mm", "lnbc1m1", "lnbcm", "lnbc18446744073709551615p", "lnbc18446744073709551616p",
@@ -611,11 +681,11 @@ def run(ctx):
     gen_err = None
     try:
         generate(ctx)
-        ctx.obligations.append(("pin:offers/signer.rs::verify_metadata compares full key encodings", True, "anchored expressions present"))
+        ctx.obligations.append(("pin:verify_metadata compares full key encodings; BOLT 11 check_signature verifies against the key the accessors report", True, "anchored expressions present"))
     except Exception as ex:
         gen_err = str(ex)
         ctx.log("structural pin refused:", gen_err[:400])
-        ctx.obligations.append(("pin:offers/signer.rs::verify_metadata compares full key encodings", False, gen_err[:600]))
+        ctx.obligations.append(("pin:verify_metadata compares full key encodings; BOLT 11 check_signature verifies against the key the accessors report", False, gen_err[:600]))
     okm, outm = ctx.coq_make(["Model/Bech32.vo", "Model/Bolt11.vo", "Model/Bolt12Merkle.vo", "Model/OfferMeta.vo", "Model/Bolt12Exec.vo"])
     proved = ctx.prove("C18")
     ctx.trusted_base += [
@@ -677,7 +747,12 @@ def run(ctx):
     # ---- decide (DESIGN.md §9)
     for f in fails[:3]:
         what = f.get("why") or f.get("case") or ""
-        if f["k"] == "b11mut":
+        if f["k"] == "b11struct":
+            v = f["structural"]["violations"]
+            what = v[0]["why"] + " [" + v[0]["input"].split(" | ")[0] + "; " + v[0]["input"].split(" | ")[1] + "]"
+            mstr = v[0]["input"].split(" | ")[-1]
+            inp = {"original": f["s"], "mutation": " | ".join(v[0]["input"].split(" | ")[:-1]), "mutated": mstr, "replay_cmd": "printf 'b11 %s\\n' | %s eval" % (hx(mstr), ctx.bin_path("h_invoice"))}
+        elif f["k"] == "b11mut":
             v = [x for m in ("single_char", "symbol", "amount", "timestamp", "truncation") for x in f[m]["violations"]]
             what = v[0]["why"] if v else "mutation accepted"
             inp = {"original": f["s"], "mutated": v[0]["input"] if v else None, "replay_cmd": "printf 'b11 %s\\n' | %s eval" % (hx(v[0]["input"]) if v else "", ctx.bin_path("h_invoice"))}
@@ -700,7 +775,7 @@ def run(ctx):
                       {"failing_input": inp, "record": f["k"], "n_failing_records": len(fails)}, True)
     broken = []
     if gen_err:
-        broken.append({"obligation": "structural pin of verify_metadata (tools/props/C18.py:generate)", "detail": gen_err[:1500]})
+        broken.append({"obligation": "structural pins (tools/props/C18.py:generate)", "detail": gen_err[:1500]})
     ctx.coverage["translated_items"] = getattr(ctx, "gen_meta", [])
     if not proved:
         broken.append({"obligation": "Coq proof of Props/C18.v", "detail": getattr(ctx, "proof_failure", {"where": "model build" if not okm else "?", "log": outm[-1500:] if not okm else ""})})
